@@ -439,3 +439,25 @@ func VerifH_gmep3() {
 	// a pool that existed at some point; it must not be one that was never configured for that name
 	verifObserve("interfered", uint64(1-verifGmeBudget))
 }
+
+// Name resolution of pickConn, including a MultiEndpoint whose name is the empty string: a context
+// that names no MultiEndpoint goes to the default one, not to the one named "".
+func VerifH_gmenames() {
+	vReset2()
+	dName := []string{"default", ""}[verifCase("defaultIsEmptyName")]
+	oName := []string{"", "default"}[verifCase("defaultIsEmptyName")]
+	opts := &GCPMultiEndpointOptions{
+		MultiEndpoints: map[string]*multiendpoint.MultiEndpointOptions{dName: {Endpoints: []string{"ep-a"}}, oName: {Endpoints: []string{"ep-b"}}},
+		Default:        dName,
+		DialFunc:       vDial,
+	}
+	gme, err := NewGCPMultiEndpoint(opts)
+	verifAssert(err == nil && gme != nil, "C16: valid construction failed")
+	dConn, oConn := gme.pools["ep-a"].conn, gme.pools["ep-b"].conn
+	verifAssert(vRoute(gme, "", false) == dConn, "C15: RPC whose context names no MultiEndpoint is not routed via the default MultiEndpoint")
+	verifAssert(vRoute(gme, dName, true) == dConn, "C15: RPC naming the default MultiEndpoint not routed via it")
+	verifAssert(vRoute(gme, oName, true) == oConn, "C15: RPC naming a MultiEndpoint not routed via it")
+	verifAssert(vRoute(gme, "nosuch", true) == dConn, "C15: RPC naming an unknown MultiEndpoint is not routed via the default MultiEndpoint")
+	verifReach("end")
+	verifObserve("conns", uint64(vNConns))
+}
